@@ -237,6 +237,7 @@ class RunResult:
         self.log: Optional[List[Tuple]] = None
         self.choices: Dict[str, List[List[Any]]] = {}
         self.faultfree: bool = False
+        self.sets: Dict[str, Any] = {}      # named sets of strings, unioned across runs (coverage measures)
 
     def bump(self, d: Dict[str, int], k: str, n: int = 1) -> None:
         d[k] = d.get(k, 0) + n
